@@ -1,4 +1,7 @@
 SPECIFICATION Spec
 INVARIANT CommitmentExact
 INVARIANT InputsDiffer
+INVARIANT HashTypeCommitment
+INVARIANT HashTypeAllIsDefault
+INVARIANT HashTypesDiffer
 CHECK_DEADLOCK FALSE
